@@ -607,8 +607,10 @@ def information_schema_fs_tables_ext(expression: exp.Expression) -> exp.Expressi
         and tbl_exp.name.upper() == "TABLES"
         and tbl_exp.db.upper() == "INFORMATION_SCHEMA"
     ):
+        # the side table of the database that is queried (db.information_schema.tables), else of the current one
+        ext_catalog = f"{tbl_exp.catalog}." if tbl_exp.catalog else ""
         return expression.join(
-            "information_schema._fs_tables_ext",
+            f"{ext_catalog}information_schema._fs_tables_ext",
             on=(
                 """
                 tables.table_catalog = _fs_tables_ext.ext_table_catalog AND
